@@ -1107,26 +1107,26 @@ def diagnose(c: dict, ref, got, sdiff: dict, pre: dict, remote: bool = True) -> 
         if both_ok and len(sdiff) == 1 and all(v and v[0] == "d" and len(v) == 2 for v in next(iter(sdiff.values()))):
             return "mode-not-masked-by-umask"
         mode_only = all(a and b and a[0] == b[0] == "d" for a, b in sdiff.values())
-        if ref[0] == "err" and got[0] == "ok" and not c["parents"] and c["exist_ok"] and pre["parent_missing"] and not trig:
+        if ref[0] == "err" and got[0] == "ok" and not c["parents"] and c["exist_ok"] and pre["parent_missing"]:
             return "exist-ok-creates-parents"
-        if ref[0] == "err" and got[0] == "ok" and c["parents"] and not c["exist_ok"] and pre["isdir"] and mode_only and not trig:
+        if ref[0] == "err" and got[0] == "ok" and c["parents"] and not c["exist_ok"] and pre["isdir"] and mode_only:
             return "parents-implies-exist-ok"
     if op == "read_text" and both_ok and not same_value and not sdiff:
         if got[1] == ref[1].strip():
             return "strips-whitespace"
         if c["n"] >= 0 and any(ord(ch) > 127 for ch in pre.get("content", "")):
             return "n-counts-bytes-not-characters"
-    if op == "write_text" and ref[0] == "err" and got[0] == "ok" and not sdiff and not trig:
+    if op == "write_text" and ref[0] == "err" and got[0] == "ok" and not sdiff:
         return "failure-not-reported"
     if op == "checksum" and both_ok and ref[1] is None and got[1] == "" and not sdiff:
         return "non-file-returns-empty-string"
     if op == "checksum" and both_ok and isinstance(ref[1], str) and got[1] == "\\" + ref[1] and not sdiff:
         return "sha1sum-escape-marker-kept"
-    if op == "size" and both_ok and not same_value and not sdiff and pre["links_below"] and not _first_trigger(c, dq_triggers):
+    if op == "size" and both_ok and not same_value and not sdiff and pre["links_below"]:
         return "symlinks-followed-or-counted"
-    if op == "rmtree" and same_outcome and pre["kind"] == "l" and pre["dangling"] and not trig:
+    if op == "rmtree" and same_outcome and pre["kind"] == "l" and pre["dangling"] and set(sdiff) <= {c["rel"]}:
         return "dangling-symlink-removed-only-remotely"
-    if op in ("symlink_to", "hardlink_to") and pre["kind"] is not None and ref[0] == "err" and got[0] == "ok" and not trig:
+    if op in ("symlink_to", "hardlink_to") and pre["kind"] is not None and ref[0] == "err" and got[0] == "ok":
         return "replaces-existing-destination"
     if op == "walk" and both_ok and not sdiff:
         k = _diagnose_walk(c, ref[1], got[1], pre)
@@ -1153,40 +1153,97 @@ def diagnose(c: dict, ref, got, sdiff: dict, pre: dict, remote: bool = True) -> 
 
 
 def _diagnose_walk(c, ref, got, pre) -> str | None:
+    """Explain every difference between the two sets of (directory, dirnames, filenames), directory by
+    directory, from facts about the reference tree; None if anything stays unexplained."""
+    root = pre["root"]
     top = "<ROOT>" + (f"/{c['rel']}" if c["rel"] else "")
     if c["all"] and len(got) > 1 and all(t[0] == top for t in got) and got[0] == got[1]:
         return "never-descends"
-    if ref and not c["follow"] and pre["kind"] == "l" and got and all(not t[1] and not t[2] for t in got):
+    if not ref:
+        return None
+
+    def facts(d: str):
+        p = root + d[len("<ROOT>"):]
+        kinds, dangling, loop = {}, {}, False
+        try:
+            ns = os.listdir(p)
+        except OSError:
+            ns = []
+        for n in ns:
+            q = os.path.join(p, n)
+            kinds[n] = "l" if os.path.islink(q) else "d" if os.path.isdir(q) else "f"
+            dangling[n] = kinds[n] == "l" and not os.path.exists(q)
+            loop = loop or (kinds[n] == "l" and _is_loop(q))
+        return kinds, dangling, loop
+
+    def blanky(n: str) -> bool:
+        return n != n.strip() or "\n" in n
+
+    rd = {t[0]: t for t in ref}
+    gd = {t[0]: t for t in got}
+    why: set[str] = set()
+    if not c["follow"] and pre["kind"] == "l" and all(not t[1] and not t[2] for t in got):
         return "nofollow-symlinked-top-lists-nothing"
-    if ref and c["follow"] and pre.get("child_loop") and (not got or all(not t[1] and not t[2] for t in got)):
-        return "looping-symlink-drops-whole-listing"
-    if not ref or not got:
-        return None
-    r0 = next((t for t in ref if t[0] == top), ref[0])
-    g0 = next((t for t in got if t[0] == top), got[0])
-    missing = (set(r0[1]) | set(r0[2])) - (set(g0[1]) | set(g0[2]))
-    extra = (set(g0[1]) | set(g0[2])) - (set(r0[1]) | set(r0[2]))
-    moved = (set(r0[1]) ^ set(g0[1])) - missing - extra
-    kinds = pre["child_kinds"]
-    if moved:
-        return None
-    if missing or extra:
-        blanky = {n for n in missing if n != n.strip() or "\n" in n}
-        if blanky:
-            return "strips-blank-or-splits-newline-names"
+    for d, rt in rd.items():
+        gt = gd.get(d)
+        kinds, dangling, loop = facts(d)
+        if gt is None:
+            if c["follow"] and loop:
+                why.add("looping-symlink-drops-whole-listing")  # `find -L` exits 1, the error is swallowed
+                continue
+            if not c["all"]:
+                return None  # the single tuple compared is not the same directory
+            # the directory was never visited: its name was mangled in the parent's listing, or the parent's
+            # listing was dropped / never contained it (explained at the parent)
+            if blanky(d.rsplit("/", 1)[-1]) or any(blanky(x) for x in d.split("/")):
+                why.add("strips-blank-or-splits-newline-names")
+                continue
+            parent = d.rsplit("/", 1)[0]
+            if parent in rd and parent not in gd or parent in gd and d.rsplit("/", 1)[-1] not in gd[parent][1]:
+                continue  # follows from the parent's (separately explained) difference
+            return None
+        r_all, g_all = set(rt[1]) | set(rt[2]), set(gt[1]) | set(gt[2])
+        missing, extra = r_all - g_all, g_all - r_all
+        moved = (set(rt[1]) ^ set(gt[1])) - missing - extra
+        if moved:
+            return None
+        if c["follow"] and loop and not g_all and r_all:
+            why.add("looping-symlink-drops-whole-listing")
+            continue
+        for n in missing:
+            if blanky(n):
+                why.add("strips-blank-or-splits-newline-names")
+            elif kinds.get(n) == "l" and not c["follow"]:
+                why.add("nofollow-omits-symlinks")
+            elif kinds.get(n) == "l" and c["follow"] and dangling.get(n):
+                why.add("follow-omits-dangling-symlinks")
+            else:
+                return None
         if extra:
+            if any(blanky(n) for n in r_all):
+                why.add("strips-blank-or-splits-newline-names")
+            else:
+                return None
+    for d in gd:
+        if d not in rd:
+            # a directory visited only remotely: a mangled name that happens to exist
+            if "strips-blank-or-splits-newline-names" in why:
+                continue
             return None
-        if all(kinds.get(n) == "l" for n in missing):
-            if not c["follow"]:
-                return "nofollow-omits-symlinks"
-            if all(pre["child_dangling"].get(n) for n in missing):
-                return "follow-omits-dangling-symlinks"
-        return None
-    if c["all"] and ref != got:
-        # the top tuple agrees; deeper ones differ only because the remote walk never descends
-        if len(got) == 1 and len(ref) > 1 and not c["top_down"]:
-            return None
+    for k in ("looping-symlink-drops-whole-listing", "follow-omits-dangling-symlinks", "nofollow-omits-symlinks",
+              "strips-blank-or-splits-newline-names"):
+        if k in why:
+            return k
     return None
+
+
+def _sim_glob_output(matches: list[str]) -> list[str]:
+    """What the (fixed) remote implementation makes of the matches the shell prints one per line: the
+    connector strips the captured output, str.splitlines() cuts at every line boundary, PurePath normalises."""
+    import pathlib as _pl
+
+    text = "\n".join(sorted(matches, key=lambda m: m.encode())).strip()
+    return sorted(str(_pl.PurePosixPath(x)) for x in text.splitlines()) if text else []
 
 
 def _diagnose_glob(c, ref, got, pre) -> str | None:
@@ -1194,28 +1251,26 @@ def _diagnose_glob(c, ref, got, pre) -> str | None:
     top = "<ROOT>" + (f"/{c['rel']}" if c["rel"] else "")
     if any(ch in c["rel"] for ch in "*?["):
         return "local-expands-magic-in-base-path"
-    if any(ch in c["rel"] for ch in " \t\n"):
-        return "splits-on-whitespace"  # every printed match contains the directory's own blanks
+    if ref and not got and pre.get("first_match_dangling"):
+        return "dangling-first-match-hides-all"
+    if ref and _sim_glob_output(ref) == got:
+        return "newline-or-edge-blank-in-match-mangled"
+    if pat == ".*":
+        # sh also expands ".*" to "." and ".." (normalised by PurePath to the directory and "<dir>/..")
+        if _sim_glob_output(list(ref) + [top + "/.", top + "/.."]) == got:
+            return "dot-star-matches-dot-and-dotdot"
     ws = [m for m in ref if any(ch in m for ch in " \t\n")]
     tokens = {y for m in ws for x in m.split() for y in (x, x.rstrip("/"))}
     clean = {m for m in ref if m not in ws}
     extras = [g for g in got if g not in clean and g not in tokens]
     missing = [m for m in clean if m not in got]
-    if ws and not extras and not missing:
-        return "splits-on-whitespace"
     if (extras or missing) and ("?" in pat or "[" in pat) and all(any(ord(ch) > 127 for ch in n.rsplit("/", 1)[-1]) for n in extras + missing):
         # sh (dash, busybox ash) matches `?` and bracket expressions against bytes, glob.glob against characters
         return "question-mark-matches-bytes-not-characters"
-    if pat == ".*":
-        # sh also expands ".*" to "." and ".." (normalised by PurePath to the directory and "<dir>/..")
-        dots = [top + "/.", top + "/.."]
-        tokens = {y for m in list(ref) + dots for x in m.split() for y in (x, x.rstrip("/"), x.removesuffix("/."))}
-        if all(g in ref or g in (top, top + "/..") or g in tokens for g in got):
-            return "dot-star-matches-dot-and-dotdot"
-    if ref and not got and pre.get("first_match_dangling"):
-        return "dangling-first-match-hides-all"
     if any(ch in pat for ch in "*?[") and got == [f"{top}/{pat}"] and got[0] not in ref:
         return "unmatched-pattern-taken-literally"
+    if (ws or any(ch in c["rel"] for ch in " \t")) and not missing and all(g in clean or g in tokens or any(g in m.split() or g in [x.rstrip("/") for x in m.split()] for m in ref) for g in got):
+        return "splits-on-whitespace"  # (fixed by e228d19: would be a regression)
     if pat.endswith("/"):
         return "trailing-slash-pattern"
     return None
@@ -1283,7 +1338,7 @@ def _pre_state(root: str, c: dict) -> dict:
     kind = None
     if os.path.lexists(p):
         kind = "l" if os.path.islink(p) else "d" if os.path.isdir(p) else "f"
-    pre = {"kind": kind, "isdir": os.path.isdir(p), "dangling": kind == "l" and not os.path.exists(p),
+    pre = {"root": root, "kind": kind, "isdir": os.path.isdir(p), "dangling": kind == "l" and not os.path.exists(p),
            "parent_missing": not os.path.isdir(os.path.dirname(p)), "links_below": False}
     op = c["op"]
     if op == "size":
